@@ -65,7 +65,9 @@ ASSUMPTIONS = ['real-number semantics of binary64 formulas (DESIGN 3.1)',
 
 EXACT_KINDS = ('lin', 'aff', 'cubic', 'sat', 'kink')
 LIBM_KINDS = ('expm',)
-ORACLE_KINDS = ('lin', 'aff', 'cubic', 'sat', 'expm')     # the property's family (closeness oracle)
+ORACLE_KINDS = ('lin', 'aff', 'cubic', 'sat', 'expm', 'quint')     # the property's family (closeness oracle)
+SLOW_KINDS = ('cubic', 'quint', 'expm')     # slowly converging: flat roots (x**3, x**5), exp-type
+BIT_KINDS = ('lin', 'aff', 'cubic', 'sat', 'kink', 'quint')     # + - * / only: bit-identical to the Lean Float run
 EPS = float(np.finfo(float).eps)
 
 
@@ -79,6 +81,9 @@ def fam_eval(kind, x, p, q):
     if kind == 'cubic':
         d = x - q
         return p * (d * d * d)
+    if kind == 'quint':
+        d = x - q
+        return p * (d * d * d * d * d)
     if kind == 'sat':
         d = x - q
         return p * d / (1.0 + np.abs(d))
@@ -456,6 +461,7 @@ def run(ctx, lean):
     names = ['corr:spec-language', 'corr:bisect.exact', 'corr:bisect.libm', 'corr:bisect.caller-arrays',
              'corr:bisect.rejects', 'corr:chandrupatla.exact', 'corr:chandrupatla.libm',
              'corr:chandrupatla.rejects', 'corr:chandrupatla.scalar', 'corr:chandrupatla.dtype', 'corr:bisect.dtype',
+             'corr:options',
              'corr:kde.percent_point']
     if lean is None:
         for n in names[:-1]:
@@ -474,7 +480,7 @@ def tie_spec(ctx, lean):
     rng = ctx.rng('spec')
     bad = None
     for _ in range(30 * ctx.scale):
-        lanes = [gen_lane(rng, EXACT_KINDS + LIBM_KINDS)[0] for _ in range(12)]
+        lanes = [gen_lane(rng, EXACT_KINDS + LIBM_KINDS + ('quint',))[0] for _ in range(12)]
         xs = []
         for l in lanes:
             c = rng.random()
@@ -490,7 +496,7 @@ def tie_spec(ctx, lean):
             continue
         for l, x, y, z in zip(lanes, xs, ys, r[1]):
             y = float(y)
-            if l[0] in EXACT_KINDS:
+            if l[0] in BIT_KINDS:
                 ok = same_bits(y, z)
             else:   # exp through two libm implementations: a few ulp of exp(.) ~ 1, absolute after the -1
                 ok = (y != y and z != z) or y == z or abs(y - z) <= 8 * EPS * max(1.0, abs(y))
@@ -503,6 +509,73 @@ BISECT_PARAMS = [(None, None)] * 6 + [(1e-3, None), (1e-12, None), (0.0, None), 
                                        (1e-12, 100), (1e-8, 100)]
 CHAND_PARAMS = [(None, None, None)] * 6 + [(None, None, 1), (None, None, 3), (None, None, 12), (None, None, 100),
                                             (1e-10, 1e-12, None), (1e-6, 1e-6, None), (0.0, 1e-9, None)]
+
+
+# option combinations: eps_m only / eps_a only / both / neither, with and without maxiter; tol / maxiter for bisect
+CHAND_OPTIONS = [(None, None, None), (1e-11, None, None), (1e-13, None, None), (1e-12, None, 100), (1e-6, None, None),
+                 (None, 1e-15, None), (None, 1e-12, None), (None, 1e-13, 200), (1e-12, 1e-15, None),
+                 (1e-10, 1e-12, None), (None, None, 100), (None, None, 200), (1e-9, None, 12)]
+BISECT_OPTIONS = [(None, None), (1e-12, None), (1e-10, 100), (1e-6, None), (0.0, None), (None, 30), (None, 100),
+                  (1e-14, 200)]
+
+
+def combo_label(method, params):
+    if method == 'bisect':
+        keys = [k for k in ('tol', 'maxiter') if params.get(k) is not None]
+    else:
+        keys = [k for k in ('eps_m', 'eps_a', 'maxiter') if params.get(k) is not None]
+    return '+'.join(keys) if keys else 'defaults'
+
+
+def asked_tol(method, lane, params):
+    """the closeness the CALLER is entitled to: the property's tolerance, relaxed only as far as the options the
+    caller passed say so, every option the caller did not pass having its DOCUMENTED default (bisect tol=1e-8,
+    maxiter=50; chandrupatla eps_m = machine eps, eps_a = 2 * machine eps, maxiter=50).  chandrupatla stops a lane
+    when its bracket is below 2*tol, tol = 2*eps_m*|x| + eps_a."""
+    if combo_label(method, params) == 'defaults':
+        return prop_tol(method, lane)
+    w = abs(lane[4] - lane[3])
+    if method == 'bisect':
+        t = 1e-8 if params.get('tol') is None else params['tol']
+        m = 50 if params.get('maxiter') is None else params['maxiter']
+        return max(t, w / 2.0 ** m) + lane_slack(lane)
+    em = EPS if params.get('eps_m') is None else params['eps_m']
+    ea = 2 * EPS if params.get('eps_a') is None else params['eps_a']
+    cap = 50 if params.get('maxiter') is None else params['maxiter']
+    base = max(1e-9 * w, 2 * (2 * em * max(abs(lane[3]), abs(lane[4])) + ea))
+    if cap < 50:      # fewer iterations than the documented cap: only containment is promised
+        base = max(base, w)
+    return base + lane_slack(lane)
+
+
+def gen_options_batch(ctx, rng, n):
+    """narrow brackets near zero (width 1e-2..1e-6, where eps_a decides) or wide brackets with slowly converging
+    functions (cubic / quintic flat root, exp-type)."""
+    lanes = []
+    mode = rng.choice(['narrow', 'narrow', 'wide-slow', 'mixed'])
+    for _ in range(n):
+        m = rng.choice(['narrow', 'wide-slow']) if mode == 'mixed' else mode
+        for _ in range(50):
+            if m == 'narrow':
+                kind = rng.choice(('cubic', 'quint', 'expm', 'lin', 'sat'))
+                w = logu(rng, -6, -2)
+                r = w * rng.uniform(-0.5, 0.5) if rng.random() < 0.85 else 0.0
+                lo, hi = r - w * rng.uniform(0.05, 0.5), r + w * rng.uniform(0.05, 0.5)
+                p = logu(rng, -2, 4) / (w ** 3 if kind == 'cubic' else w ** 5 if kind == 'quint' else w)
+            else:
+                kind = rng.choice(SLOW_KINDS)
+                r = logu(rng, -2, 2) * rng.choice([-1, 1])
+                w = max(1.0, abs(r)) * logu(rng, 0, 3)
+                u = rng.uniform(0.02, 0.98)
+                lo, hi = r - u * w, r + (1 - u) * w
+                p = logu(rng, -4, 2) if kind != 'expm' else logu(rng, -3, 0)
+            if _valid(kind, p, r, lo, hi):
+                lanes.append((kind, p, r, lo, hi))
+                break
+        else:
+            lanes.append(('lin', 1.0, 0.0, -1e-4, 1e-4))
+    ctx.count(f'options-batch:{mode}')
+    return lanes
 
 
 def lane_counts(ctx, rng, k):
@@ -639,8 +712,39 @@ def tie_chand(ctx, lean):
             if len(ctx.samples) < 6 and R['st'] == 'ok' and n <= 3:
                 ctx.sample({'method': 'chandrupatla', 'lanes': lanes, 'eps_m': eps_m, 'eps_a': eps_a,
                             'maxiter': maxiter, 'result': R['res'].tolist(), 'iters': R['iters']})
+    # option combinations on narrow brackets near zero / slowly converging functions: the model is run with the
+    # DOCUMENTED default for every option the caller leaves out
+    rng = ctx.rng('chand', 'options')
+    bado = None
+    for j in range(26 * ctx.scale):
+        lanes = gen_options_batch(ctx, rng, rng.choice([1, 1, 2, 3, 5, 17, 60]))
+        bitwise = all(l[0] in BIT_KINDS for l in lanes)
+        eps_m, eps_a, maxiter = CHAND_OPTIONS[j % len(CHAND_OPTIONS)]
+        R = real_chand(lanes, eps_m, eps_a, maxiter)
+        L = lean_chand(lean, lanes, eps_m, eps_a, maxiter)
+        lab = combo_label('chandrupatla', {'eps_m': eps_m, 'eps_a': eps_a, 'maxiter': maxiter})
+        ctx.case(('chand-options', eps_m, eps_a, maxiter, tuple(lanes)), nontrivial=(R.get('iters', 0) > 1))
+        d = cmp_chand(None, lanes, R, L, bitwise, eps_m, eps_a, maxiter)
+        ctx.count(f'chand:options:{lab}:' + ('bit-identical' if R['st'] == 'ok' and L['st'] == 'ok' and
+                                             first_diff(R['res'], L['res'], lanes) is None else
+                                             'within-tolerance' if d is None else 'DIFFERS'))
+        if d and bado is None:
+            bado = shrink(lanes, d, lambda ls: cmp_chand(None, ls, real_chand(ls, eps_m, eps_a, maxiter),
+                                                         lean_chand(lean, ls, eps_m, eps_a, maxiter), bitwise,
+                                                         eps_m, eps_a, maxiter),
+                          {'options': lab, 'eps_m': eps_m, 'eps_a': eps_a, 'maxiter': maxiter})
+        tol, bmaxiter = BISECT_OPTIONS[j % len(BISECT_OPTIONS)]
+        Rb = real_bisect(lanes, tol, bmaxiter)
+        Lb = lean_bisect(lean, lanes, tol, bmaxiter)
+        ctx.case(('bisect-options', tol, bmaxiter, tuple(lanes)), nontrivial=(Rb.get('iters', 0) > 1))
+        db = cmp_bisect(None, lanes, Rb, Lb, bitwise, tol, bmaxiter)
+        ctx.count(f'bisect:options:{combo_label("bisect", {"tol": tol, "maxiter": bmaxiter})}:' +
+                  ('agrees' if db is None else 'DIFFERS'))
+        if db and bado is None:
+            bado = dict(db, method='bisect', tol=tol, maxiter=bmaxiter, n=len(lanes))
     ctx.ob('corr:chandrupatla.exact', bad['exact'] is None, 'tie', bad['exact'] or 'ok')
     ctx.ob('corr:chandrupatla.libm', bad['libm'] is None, 'tie', bad['libm'] or 'ok')
+    ctx.ob('corr:options', bado is None, 'tie', bado or 'ok')
 
 
 def tie_dtype(ctx, lean):
@@ -1128,14 +1232,18 @@ def oracle_case(method, lanes, params):
     # `chandrupatla_converges_partial` clause) are only counted.
     fres = VecFn(lanes)(res)
     misses = {}
+    lab = combo_label(method, params)
     for i, l in enumerate(lanes):
-        t = prop_tol(method, l)
+        t = asked_tol(method, l, params)
         if not (abs(float(res[i]) - lane_root(l)) <= t or float(fres[i]) == 0.0):
             if l[0] in ORACLE_KINDS:
-                fails.append((f'{method}:not-within-tolerance:{l[0]}',
+                cls = f'{method}:not-within-tolerance:{l[0]}' + ('' if lab == 'defaults' else f':options={lab}')
+                fails.append((cls,
                               {'lane': l, 'x': float(res[i]), 'root': lane_root(l), 'f(x)': float(fres[i]), 'n': n,
-                               'iters': R['iters']},
-                              f'|x - root| <= {t:g} or f(x) == 0'))
+                               'iters': R['iters'], 'error_over_width': abs(float(res[i]) - lane_root(l)) / abs(l[4] - l[3]),
+                               'options': {k: params[k] for k in ('tol', 'maxiter', 'eps_m', 'eps_a') if params.get(k) is not None}},
+                              f'|x - root| <= {t:g} or f(x) == 0 (options the caller did not pass have their '
+                              'documented defaults)'))
                 break
             misses[l[0]] = misses.get(l[0], 0) + 1
     R['misses'] = misses
@@ -1162,7 +1270,7 @@ def oracle_lanes(method, lanes, params, R, rng, budget):
         if S['st'] != 'ok':
             fails.append((f'{method}:solo-rejected', {'lane': lanes[i]}, 'lane alone behaves like the lane in a batch'))
             return fails
-        t = 2 * prop_tol(method, lanes[i])
+        t = 2 * asked_tol(method, lanes[i], params)
         fx = float(VecFn([lanes[i]])(np.array([R['res'][i]]))[0])
         fs = float(VecFn([lanes[i]])(S['res'])[0])
         if lanes[i][0] not in ORACLE_KINDS:
@@ -1326,6 +1434,23 @@ def search(ctx, deep):
         for method in ('bisect', 'chandrupatla'):
             checked += 1
             report(method, bl, {}, oracle_invalid(method, bl, how), {'invalid': how})
+    # option combinations (eps_m only / eps_a only / both / neither / maxiter; tol / maxiter) on narrow brackets
+    # near zero and on wide brackets with slowly converging functions
+    orng = ctx.rng('search-options')
+    for b in range(len(CHAND_OPTIONS) * 2 * (8 if deep else 1)):
+        lanes = gen_options_batch(ctx, orng, orng.choice([1, 2, 3, 5, 8, 17, 60] + ([300] if deep else [])))
+        eps_m, eps_a, maxiter = CHAND_OPTIONS[b % len(CHAND_OPTIONS)]
+        tol, bmaxiter = BISECT_OPTIONS[b % len(BISECT_OPTIONS)]
+        for method, params in (('chandrupatla', {'eps_m': eps_m, 'eps_a': eps_a, 'maxiter': maxiter}),
+                               ('bisect', {'tol': tol, 'maxiter': bmaxiter})):
+            params = {k: v for k, v in params.items() if v is not None}
+            fails, R = oracle_case(method, lanes, params)
+            checked += 1
+            if not fails:
+                fails = oracle_lanes(method, lanes, params, R, orng, 8 if not deep else 24)
+                checked += 1
+            ctx.count(f'search:options:{method}:{combo_label(method, params)}:' + ('ok' if not fails else 'FAILS'))
+            report(method, lanes, params, fails)
     # brackets in other representations: float32 / int64 / int32 arrays, scalars of every type
     drng = ctx.rng('search-dtype')
     for b in range(len(DTYPE_STREAM) * 4 * (10 if deep else 1)):
